@@ -8,7 +8,6 @@ import (
 	"errors"
 	"fmt"
 	"net"
-	"strings"
 	"testing"
 	"testing/synctest"
 	"time"
@@ -336,10 +335,7 @@ func h2BindResponseLost(t *testing.T, vt *vhT) {
 		synctest.Wait()
 		closed := false
 		if pc, ok := peerEnd.(*simConn); ok && pc != nil {
-			_ = pc.SetDeadline(time.Now())
-			buf := make([]byte, 16)
-			_, rerr := pc.Read(buf)
-			closed = rerr != nil && !strings.Contains(rerr.Error(), "timeout")
+			closed = pc.peerClosed()
 		}
 		if !closed {
 			vt.Alarm("bind-response-lost-leaks-peer-connection", "31 s after a ConnectionBind whose success response could not be written the peer connection is still open")
